@@ -228,8 +228,12 @@ def fit_pcovr(j, label, X, Y, reg, regressor_obj=None, past=None, **kw):
         T2 = np.asarray(est.transform(X))
         j.close("fit_transform(X, y) == transform(X) of the estimator it fitted", T, T2, 1e-9 * max(float(np.abs(T2).max()), 1e-300), {"space": getattr(est, "space_", None)})
         j.note("fits_through_fit_transform")
+        if route.get("clobber"):
+            forms.clobber(Xin, Yin, j=j)
         return forms.carry(est, route.get("carry", "same"), j)
     j.lib(f"fit:{label}", est.fit, Xin, Yin, **extra)
+    if route.get("clobber"):
+        forms.clobber(Xin, Yin, j=j)
     return forms.carry(est, route.get("carry", "same"), j)  # what is used afterwards may be a copy of what was fitted
 
 
@@ -238,7 +242,7 @@ def routes(rng, n=8):
     it, which containers carry the numbers."""
     from . import forms
 
-    return [{"how": gens.pick(rng, forms.CONFIGURE), "via": gens.pick(rng, ("fit", "fit", "fit_transform")), "xform": gens.pick(rng, forms.PRESENT), "yform": gens.pick(rng, forms.PRESENT), "carry": gens.pick(rng, forms.CARRY)} for _ in range(n)]
+    return [{"how": gens.pick(rng, forms.CONFIGURE), "via": gens.pick(rng, ("fit", "fit", "fit_transform")), "xform": gens.pick(rng, forms.PRESENT), "yform": gens.pick(rng, forms.PRESENT), "carry": gens.pick(rng, forms.CARRY), "clobber": bool(rng.random() < 0.5)} for _ in range(n)]
 
 
 def use_routes(j, case):
